@@ -24,7 +24,30 @@ def compact (ids : List Nat) : String :=
         else rle rest (some (d, 1)) (s!"+{d'}*{k}" :: acc) f
     " ".intercalate (toString first :: rle deltas none [] (deltas.length + 1))
 
-def answer (line : String) : String :=
+/-- `restart <shard> | L r1,r2,… | F | Q | L …`: each `L` is a process lifetime of one shard:
+a fresh generator, one STORE per listed reading (after the script the hook returns last + 1).
+`Q` prints the distinct ids a query returns: ids of all events stored so far (recovered events
+keep their ids), de-duplicated. -/
+def answerRestart (shard : Nat) (toks : List String) : String :=
+  let step := fun (acc : List Nat × List String) (t : String) =>
+    let (ids, obs) := acc
+    match words t with
+    | ["L", rs] =>
+      match (rs.splitOn ",").mapM String.toNat? with
+      | some readings =>
+        let last := readings.getLast?.getD 0
+        let fallback := (List.range (2 * readings.length + 2)).map fun i => last + 1 + i
+        (ids ++ IdGen.run IdGen.Gen.init (readings ++ fallback) shard readings.length, obs)
+      | none => (ids, "bad-op" :: obs)
+    | ["F"] => (ids, obs)
+    | ["Q"] =>
+      let d := Snel.IdGen.sortDedup ids
+      (ids, (",".intercalate (d.map toString)) :: obs)
+    | _ => (ids, "bad-op" :: obs)
+  let (_, obs) := toks.foldl step ([], [])
+  " ; ".intercalate obs.reverse
+
+def answerIdgen (line : String) : String :=
   match words line with
   | "idgen" :: shard :: calls :: runs =>
     match shard.toNat?, calls.toNat?, runs.mapM parseRun with
@@ -36,5 +59,16 @@ def answer (line : String) : String :=
       compact (IdGen.run IdGen.Gen.init (script ++ fallback) shard calls)
     | _, _, _ => "bad-op"
   | _ => "bad-op"
+
+def answer (line : String) : String :=
+  match line.splitOn " | " with
+  | hd :: toks =>
+    match words hd with
+    | ["restart", sh] =>
+      match sh.toNat? with
+      | some sh => answerRestart sh toks
+      | none => "bad-op"
+    | _ => answerIdgen line
+  | [] => "bad-op"
 
 def main : IO Unit := serve answer
